@@ -23,6 +23,10 @@ func NewUniverse(maxDepth int, extra bool) *Universe {
 		enc.NewStringComponent(enc.TypeKeywordNameComponent, "a"),
 		// and under a type that equals the generic type modulo 256
 		enc.Component{Typ: 8 + 256, Val: []byte("a")},
+		// one component whose value is "a", the 8-byte big-endian type field of a generic component,
+		// then "b": a table that keys names by a digest of (type, value) pairs written back to back
+		// without lengths sees this one-component name as the two-component name /a/b
+		enc.Component{Typ: 8, Val: []byte{'a', 0, 0, 0, 0, 0, 0, 0, 8, 'b'}},
 	}
 	if extra {
 		u.Alphabet = append(u.Alphabet,
